@@ -312,11 +312,11 @@ func runC06(c C06Case) (res common.Result) {
 		ctl.Run(c.Choices, nil)
 		stuck, dump := ctl.Finish(5 * time.Second)
 		if len(stuck) > 0 {
-			if st := StackOf(dump, "raft-wal.(*WAL)"); st != "" {
-				res.Fail = common.Failf("deadlock", "workers %v never returned; goroutines inside raft-wal:\n%s", stuck, st)
+			if st := ctl.WorkerStacks(dump, stuck); strings.Contains(st, "raft-wal") {
+				res.Fail = common.Failf("deadlock", "workers %v are parked for good inside raft-wal (same state in two dumps, every goroutine released):\n%s", stuck, st)
 				return
 			}
-			panic("stuck outside raft-wal\n" + dump)
+			common.Inconclusive("workers %v parked outside raft-wal", stuck)
 		}
 		res.Note = strings.Join(ctl.Trace, " ")
 		if len(res.Note) > 500 {
